@@ -50,6 +50,9 @@ func (e *Exec) loopEnv(st *State, pos token.Pos, extra map[string]Val) *cenv {
 		env.vals[k] = v
 	}
 	env.old = e.frames[0].oldState()
+	if st.anchor != nil {
+		env.old = st.anchor
+	}
 	env.resolve = func(name string, s *State) (Val, bool) {
 		sc := pkg.Types.Scope().Innermost(pos)
 		for sc != nil {
